@@ -94,6 +94,8 @@ def show(v) -> str:
     for p in v.pieces:
         if p[0] == "lit":
             out.append(repr(p[1]))
+        elif p[0] in ("head", "tail"):
+            out.append("<first character of text>" if p[0] == "head" else "<last character of text>")
         else:
             sl = "" if (p[1], p[2]) == (0, 0) else f"[{p[1] or ''}:{-p[2] if p[2] else ''}]"
             out.append(f"<text>{sl}" if p[0] == "raw" else f"escape(<text>{sl})")
@@ -137,6 +139,8 @@ def sym_len(s: SymStr, node=None):
     for p in s.pieces:
         if p[0] == "lit":
             c += len(p[1])
+        elif p[0] in ("head", "tail"):
+            c += 1
         elif p[0] == "raw":
             # X[a:L-b] has max(0, L-a-b) characters; exact only when that is known to be non-negative
             if LMIN - p[1] - p[2] < 0:
@@ -153,8 +157,10 @@ def min_len(s: SymStr) -> int:
     for p in s.pieces:
         if p[0] == "lit":
             n += len(p[1])
+        elif p[0] in ("head", "tail"):
+            n += 1
         else:
-            n += max(0, LMIN - p[1] - p[2]) if p[0] == "raw" else max(0, LMIN - p[1] - p[2])
+            n += max(0, LMIN - p[1] - p[2])
     return n
 
 
@@ -167,6 +173,9 @@ def cut_front(pieces: list, k: int, node=None) -> list:
             rest = p[1][take:]
             out[0:1] = [("lit", rest)] if rest else []
             k -= take
+        elif p[0] in ("head", "tail"):
+            out.pop(0)
+            k -= 1
         elif p[0] == "raw":
             if len(out) == 1 or k <= LMIN - p[1] - p[2]:
                 out[0] = ("raw", p[1] + k, p[2])
@@ -187,6 +196,9 @@ def cut_back(pieces: list, k: int, node=None) -> list:
             rest = p[1][: len(p[1]) - take]
             out[-1:] = [("lit", rest)] if rest else []
             k -= take
+        elif p[0] in ("head", "tail"):
+            out.pop()
+            k -= 1
         elif p[0] == "raw":
             if len(out) == 1 or k <= LMIN - p[1] - p[2]:
                 out[-1] = ("raw", p[1], p[2] + k)
@@ -228,11 +240,15 @@ def sym_slice(s: SymStr, lo, up, step, node=None):
             return ""
         if ps and ps[0][0] == "lit" and b[1] <= len(ps[0][1]) and a[0] == "s":
             return ps[0][1][a[1] : b[1]]
+        if ps and ps[0][0] == "raw" and ps[0][1] == 0 and LMIN - ps[0][2] >= 1 and a == ("s", 0) and b[1] == 1:
+            return SymStr((("head",),))
         raise Unknown(node, "slice with an absolute upper bound inside the opaque text")
     if a[0] == "e":
         if ps and ps[-1][0] == "lit" and a[1] <= len(ps[-1][1]):
             lit = ps[-1][1]
             return lit[len(lit) - a[1] : len(lit) - b[1]] if a[1] else ""
+        if ps and ps[-1][0] == "raw" and ps[-1][2] == 0 and LMIN - ps[-1][1] >= 1 and a == ("e", 1) and b == ("e", 0):
+            return SymStr((("tail",),))
         raise Unknown(node, "slice with a lower bound counted from the end inside the opaque text")
     ps = cut_front(ps, a[1], node)
     ps = cut_back(ps, b[1], node)
@@ -254,6 +270,12 @@ def sym_startswith(s: SymStr, prefix: str, x: XInfo, node=None) -> bool:
             i += len(seg)
             if len(seg) < len(p[1]):
                 return True
+        elif p[0] == "head" or (p[0] == "tail" and LMIN == 1 and False):
+            if prefix[i] == "*" and x.first_not_star:
+                return False
+            raise Unknown(node, "the first character of the opaque text")
+        elif p[0] == "tail":
+            raise Unknown(node, "the last character of the opaque text")
         elif p[0] == "raw":
             if p[1] == 0 and LMIN - p[2] >= 1 and prefix[i] == "*" and x.first_not_star:
                 return False
@@ -280,6 +302,12 @@ def sym_endswith(s: SymStr, suffix: str, x: XInfo, node=None) -> bool:
             i -= len(seg)
             if len(seg) < len(p[1]):
                 return True
+        elif p[0] == "tail":
+            if suffix[i - 1] == "*" and x.last_not_star:
+                return False
+            raise Unknown(node, "the last character of the opaque text")
+        elif p[0] == "head":
+            raise Unknown(node, "the first character of the opaque text")
         elif p[0] == "raw":
             if p[2] == 0 and LMIN - p[1] >= 1 and suffix[i - 1] == "*" and x.last_not_star:
                 return False
@@ -329,6 +357,8 @@ def sym_escape(v, node=None):
             out.append(("lit", re.escape(p[1])))
         elif p[0] == "raw":
             out.append(("esc", p[1], p[2]))
+        elif p[0] in ("head", "tail"):
+            raise Unknown(node, "escaping a single character of the opaque text")
         else:
             raise Unknown(node, "text escaped twice")
     return mk(out)
@@ -343,7 +373,14 @@ def concat(vals, node=None):
     return mk(ps)
 
 
-def sym_eq(a, b, node=None) -> bool:
+def sym_eq(a, b, node=None, x: "XInfo | None" = None) -> bool:
+    for s_, c_ in ((a, b), (b, a)):
+        if isinstance(s_, SymStr) and len(s_.pieces) == 1 and s_.pieces[0][0] in ("head", "tail") and isinstance(c_, str):
+            if len(c_) != 1:
+                return False
+            if c_ == "*" and x is not None and (x.first_not_star if s_.pieces[0][0] == "head" else x.last_not_star):
+                return False
+            raise Unknown(node, "a single character of the opaque text")
     if isinstance(a, SymStr) and isinstance(b, SymStr):
         if a.pieces == b.pieces:
             return True
@@ -815,7 +852,7 @@ class Evaluator:
             raise Unsupported(node, "comparison operator")
         if isinstance(op, (ast.Eq, ast.NotEq)):
             if isinstance(a, SymStr) or isinstance(b, SymStr):
-                r = sym_eq(a, b, node)
+                r = sym_eq(a, b, node, self.x)
             else:
                 r = self._int_cmp(ast.Eq(), a, b, node)
             return r if isinstance(op, ast.Eq) else not r
@@ -826,7 +863,7 @@ class Evaluator:
                 else:
                     raise Unknown(node, f"whether the opaque text contains {a!r}")
             elif isinstance(b, (tuple, list)) and isinstance(a, SymStr):
-                r = any(sym_eq(a, x, node) for x in b)
+                r = any(sym_eq(a, y, node, self.x) for y in b)
             else:
                 raise Unknown(node, "membership test on symbolic values")
             return r if isinstance(op, ast.In) else not r
@@ -879,6 +916,10 @@ class Evaluator:
                     return ps[0][1][idx]
                 if idx < 0 and ps[-1][0] == "lit" and -idx <= len(ps[-1][1]):
                     return ps[-1][1][idx]
+                if idx == 0 and ps[0][0] == "raw" and ps[0][1] == 0 and LMIN - ps[0][2] >= 1:
+                    return SymStr((("head",),))
+                if idx == -1 and ps[-1][0] == "raw" and ps[-1][2] == 0 and LMIN - ps[-1][1] >= 1:
+                    return SymStr((("tail",),))
             raise Unknown(e, "a single character of the opaque text")
         if isinstance(idx, (SymInt, SymStr)):
             raise Unknown(e, "symbolic index")
